@@ -6,6 +6,8 @@ C02 end to end — a successful `model.run(parameters, solver="euler")`, read fr
 (`C07Pipeline.run_model_eq`), changes the total population between consecutive output rows by exactly
 `h · (Σ entry-flow rates − Σ exit-flow rates)` of the right-hand side evaluated at the earlier row — whether or not the model is closed.
 Composes `C07EndToEnd.euler_run`, `C02.total_rate` and the linearity of the total.
+`run_closed_population`: for a model without entry and exit flows every row returned by a successful run — Euler, RK4 or the adaptive
+solver — has the total of the model's initial population (composes `C07Pipeline.run_model_outputs`, `C02.closed_rates` and the solver invariants).
 -/
 namespace Summer.Props.C02EndToEnd
 open Summer Summer.Run Summer.Pipeline Summer.Solvers Summer.Spec.Solvers Summer.Proofs Summer.Proofs.Solvers Summer.Proofs.EndToEnd
@@ -43,6 +45,55 @@ theorem euler_run_total (m : Model α) (b : Backend) (hp : prepare m = .ok b) (d
     (linOn_sumL m.comps.length).smul _ _ hcl, step_total m b hp params _ _ s hstep]
 end
 
+section
+variable {α : Type} [Field α] [LinearOrder α] [IsStrictOrderedRing α]
+
+/-- The vector field the run closure hands to the solvers annihilates the total of a model without entry
+and exit flows, and keeps one entry per compartment — where the right-hand side is defined AND where it is
+not (the closure then returns the zero vector). -/
+theorem fieldFn_closed (m : Model α) (b : Backend) (hp : prepare m = .ok b)
+    (hentry : ∀ f ∈ m.flows, f.src.isSome = true) (hexit : ∀ f ∈ m.flows, f.dst.isSome = true)
+    (params : List (String × α)) :
+    FieldOK m.comps.length (sumL : List α → α) (fieldFn m b params) := by
+  intro y t _
+  unfold fieldFn rhs
+  cases hstep : step m b params t y with
+  | none => exact ⟨by simp, by simpa using linOn_zero (linOn_sumL (α := α) m.comps.length)⟩
+  | some s =>
+    obtain ⟨w, mix, ci, _, _, _, rfl⟩ := (step_some_iff m b params t y s).1 hstep
+    exact ⟨Proofs.compRates_length (backendFor_of_prepare m b hp) _, Summer.C02.closed_rates m b hp hentry hexit _⟩
+
+/-- End to end, all three solvers.  A successful run read from the source text of a model without entry and
+exit flows returns rows whose totals all equal the total of the model's initial population: for Euler, for
+RK4, and for the adaptive Dormand–Prince solver with every tableau whose fit rows have the generated column
+sums, every step controller, every fuel and initial step. -/
+theorem run_closed_population (m : Model α) (b : Backend) (hp : prepare m = .ok b)
+    (hentry : ∀ f ∈ m.flows, f.src.isSome = true) (hexit : ∀ f ∈ m.flows, f.dst.isSome = true)
+    (doBase params : List (String × α)) (outs : List (List α)) (d : List (String × List α))
+    (hx0 : ∀ x0, initialPopulation m params = some x0 → x0.length = m.comps.length) :
+    (run_model m b (fun f x0 ts => euler f x0 ts) doBase params = some (outs, d) →
+      ∃ x0, initialPopulation m params = some x0 ∧ ∀ r ∈ outs, r.length = m.comps.length ∧ sumL r = sumL x0) ∧
+    (run_model m b (fun f x0 ts => rk4 f x0 ts) doBase params = some (outs, d) →
+      ∃ x0, initialPopulation m params = some x0 ∧ ∀ r ∈ outs, r.length = m.comps.length ∧ sumL r = sumL x0) ∧
+    (∀ (tb : Tableau α), FitColSums tb.fitRows → ∀ (ctl : Control α) (fuel : Nat) (dt0 : α),
+      run_model m b (fun f x0 ts => odeint tb ctl f fuel dt0 x0 ts) doBase params = some (outs, d) →
+      ∃ x0, initialPopulation m params = some x0 ∧ ∀ r ∈ outs, r.length = m.comps.length ∧ sumL r = sumL x0) := by
+  have hF := fieldFn_closed m b hp hentry hexit params
+  refine ⟨fun h => ?_, fun h => ?_, fun tb hfit ctl fuel dt0 h => ?_⟩
+  · obtain ⟨x0, hx, ho⟩ := run_model_outputs m b _ doBase params outs d h
+    subst ho
+    exact ⟨x0, hx, euler_linear (linOn_sumL _) hF x0 (hx0 x0 hx) _⟩
+  · obtain ⟨x0, hx, ho⟩ := run_model_outputs m b _ doBase params outs d h
+    subst ho
+    exact ⟨x0, hx, rk4_linear (linOn_sumL _) hF x0 (hx0 x0 hx) _⟩
+  · obtain ⟨x0, hx, ho⟩ := run_model_outputs m b _ doBase params outs d h
+    subst ho
+    exact ⟨x0, hx, odeint_linear (linOn_sumL _) tb hfit ctl hF fuel dt0 x0 (hx0 x0 hx) _⟩
+end
+
+
+#print axioms fieldFn_closed
+#print axioms run_closed_population
 #print axioms step_total
 #print axioms euler_run_total
 end Summer.Props.C02EndToEnd
